@@ -31,7 +31,7 @@ fn plan(cfg: &RunCfg) -> EncPlan {
     p.len_reps = cfg.pick(4, 40) as u32;
     p.extra_lens = vec![301, 320, 400, 505, 506, 507, 508, 509, 510, 511, 512, 513, 514, 515, 516, 517, 518, 519, 520, 600];
     p.max_body = 270;
-    p.random_per_form = cfg.pick(10_000, 300_000);
+    p.random_per_form = cfg.pick(10_000, 1_000_000);
     p.param_sweep_reps = cfg.pick(1, 10) as u32;
     p.addr_sweep_reps = cfg.pick(1, 10) as u32;
     p.pair_forms = ALL_FORMS.to_vec();
